@@ -112,6 +112,9 @@ def run(chk):
             for k_ in ks[1:]:
                 avg = avg + k_
             eq('R12.4', f'collapse_modes love_number_by_orderl[{l}] == mean over the signatures carrying degree {l} of k_{l}(J(signature)) ({tag_})', out[4][l], avg / len(ks), mm.where(f))
+    from .common import inplace_lint
+    inplace_lint(chk, repo, 'R12.5', ['TidalPy/tides/love1d.py', 'TidalPy/tides/modes/mode_manipulation.py'])
+    chk.floor('R12.5', 2)
     chk.floor('R12.4', 14)
     chk.note_analysed('functions', 'mode_manipulation.collapse_modes')
     chk.floor('R12.1', 18); chk.floor('R12.2', 4); chk.floor('R12.3', 10)
